@@ -200,7 +200,7 @@ prop("C02",
      [H("stunrs", MSG + "c02_message_type_bits", timeout=300, mem_gb=3, covers=None, stubs=[NOFMT], bounds="all 16384 (method, class) pairs, both directions, arbitrary top two bits",
         funcs=["MessageType::as_u16", "MessageType::from<u16>"])]
      + [_attr_h(n, "quick" if n in _C02_QUICK else "thorough") for n in _ATTR_ALL]
-     + [_msg_disc(k, "quick" if k in ("data3", "xor_mapped_v4") else "thorough") for k in _MSG_KINDS],
+     + [_msg_disc(k, "thorough") for k in _MSG_KINDS],
      outside="as C01; the reference layouts are written in the harness from the RFC text (RFC 8489 §5/§14, RFC 8656 §18, RFC 5780 §7, RFC 8445 §16.1) and could share a misreading with the implementation; RFC 5769 vectors stay with the existing suite")
 DESCR["C02"] = {
     "level": "Differential bounded model checking: the bytes written by the real encoders are compared, for every symbolic value, with a reference written in the harness from the RFC field diagrams (type bits for all 16384 pairs, type codes, big-endian fields, XOR-ed addresses with every transaction-id byte, ERROR-CODE split for all 400 codes, nested PASSWORD-ALGORITHMS padding, zero padding); reserved bits and padding set to arbitrary values decode identically.",
@@ -397,7 +397,7 @@ _C07 = [H("agentshim", ST + n, tier=t, timeout=1800, mem_gb=12, covers=c, stubs=
                              ("c07_two_replies_unreliable", "quick", 1, "two replies for one transaction on unreliable transport (rejected then acceptable, valid then duplicate)"))]
 _C13_PATS = [(9, 9, 9), (0, 0, 9), (0, 1, 9), (0, 2, 9), (0, 3, 9), (0, 4, 9), (0, 5, 9), (1, 0, 9), (1, 1, 9), (1, 2, 9), (1, 3, 9), (1, 4, 9), (1, 5, 9), (2, 0, 9), (2, 1, 9), (2, 2, 9), (2, 3, 9), (2, 4, 9), (2, 5, 9), (3, 0, 9), (3, 1, 9), (3, 2, 9), (3, 3, 9), (3, 4, 9), (3, 5, 9), (4, 0, 9), (4, 1, 9), (4, 2, 9), (4, 3, 9), (4, 4, 9), (4, 5, 9), (5, 0, 9), (5, 1, 9), (5, 2, 9), (5, 3, 9), (5, 4, 9), (5, 5, 9), (0, 1, 0), (0, 2, 3), (2, 0, 4), (3, 0, 5), (4, 5, 0), (5, 4, 3), (1, 1, 2), (0, 3, 4), (2, 2, 0), (5, 0, 1), (3, 4, 5), (4, 3, 2)]
 _KN = {0: "ordinary-A", 1: "ordinary-B", 2: "USERNAME", 3: "MI", 4: "SHA256", 5: "FINGERPRINT", 9: "-"}
-_C13_QUICK = {(9, 9, 9), (0, 1, 9), (0, 0, 9), (2, 0, 9), (3, 4, 9), (4, 0, 9), (0, 4, 9), (3, 5, 9), (0, 2, 3), (5, 4, 3)}
+_C13_QUICK = {(9, 9, 9), (0, 1, 9), (0, 0, 9), (3, 4, 9), (0, 4, 9), (3, 5, 9), (5, 4, 3)}
 _C13 = [H("agentshim", ST + "c13_outgoing_p%d%d%d" % p, tier=("quick" if p in _C13_QUICK else "thorough"), timeout=1500, mem_gb=(22 if 5 in p and 0 in p else 14), covers=None, stubs=_AS, playback=False,
           bounds="application list with the concrete kind pattern [%s] (values symbolic); mechanism state None/MI/SHA256 symbolic" % ", ".join(_KN[k] for k in p),
           funcs=["StunAttributes::add/remove", "From<StunAttributes> for Vec<StunAttribute>", "ShortTermCredentialClient::add_attributes/prepare_request_or_indication", "st_cred_mech::remove_auth_and_integrity_attrs"])
